@@ -702,6 +702,14 @@ pub fn do_env(rig: &mut Rig, act: &Value, log: &mut Vec<Value>) {
             rig.ins[i].close();
             log.push(json!({"ev": "close", "i": i + 1}));
         }
+        "close_if_done" => {
+            // close the input only once all of its data has been delivered (hand-written schedules)
+            let i = act["i"].as_u64().unwrap_or(1) as usize - 1;
+            if rig.ins[i].left() == 0 && !rig.ins[i].closed() {
+                rig.ins[i].close();
+                log.push(json!({"ev": "close", "i": i + 1}));
+            }
+        }
         "dropout" => {
             let j = act["j"].as_u64().unwrap_or(1) as usize - 1;
             rig.outs[j].drop_reader();
@@ -965,6 +973,9 @@ pub fn run_scenario(spec: &Value) -> Vec<Value> {
                     "rc_same": true, "out": [], "outn": [], "tags": [], "eof": false}));
             } else {
                 do_work(&mut rig, &mut log);
+                if let Some(e) = log.last_mut() {
+                    e["flush"] = json!(true); // not a call of the block: what it left behind when dropped
+                }
             }
         }
         log.push(json!({"ev": "final", "settled": ok,
